@@ -359,6 +359,8 @@ def run_prop(prop, tier, seed):
     segseg.run_pt(res, tier, seed, prop)  # the same for point_to_triangle (PointTri.tla)
     from .. import linebox
     linebox.run(res, tier, seed, prop)    # the same for line_to_box / line_segment_to_box (LineBox.tla)
+    from .. import lineflat
+    lineflat.run(res, tier, seed, prop)   # the same for line / segment vs triangle / rectangle (LineFlat.tla)
     res.coverage["evaluations"] = len(recs)
     res.coverage["exact"] = sum(1 for r in recs if r["exact"])
     res.coverage["float_judged"] = sum(1 for r in recs if not r["exact"] and r["optJudged"])
